@@ -1511,6 +1511,9 @@ def run(ctx, rep):
     from rules.c15 import rule_verbatim, rule_measured
     rule_verbatim(ctx, rep, rid="R-C05-verbatim")
     rule_measured(ctx, rep, rid="R-C05-measured")
+    # a position found in one text is a position of that text only (offsets searched in a case-converted copy move what is blanked)
+    from rules.c14 import rule_samestr
+    rule_samestr(ctx, rep, rid="R-C05-samestr")
     from rules import c05_blank, c05_joinorder
     c05_blank.run(ctx, rep)
     c05_joinorder.run(ctx, rep)
